@@ -1203,6 +1203,19 @@ func exExecWith(c *exCall, global bool) (o *exOutcome) {
 		}
 		if c.Entry == "base_path" {
 			result(sch, spec.ExpandSchemaWithBasePath(sch, nil, opts))
+		} else if c.Entry == "cache_prefilled" {
+			// the pre-filled cache: an earlier ExpandSchema call with this cache filed the root under its pseudo location;
+			// the element is then expanded by the cache alone - no root, no location in the options
+			groot, err := exRootValue(c, "with_root_generic")
+			if err != nil {
+				fail(fmt.Errorf("decode root: %w", err))
+				return
+			}
+			cache := newExMapCache()
+			_ = spec.ExpandSchema(new(spec.Schema), groot, cache)
+			opts = &spec.ExpandOptions{SkipSchemas: c.Opts.Skip, ContinueOnError: c.Opts.Cont, AbsoluteCircularRef: c.Opts.Abs, PathLoader: loader}
+			before = *opts
+			result(sch, spec.ExpandSchemaWithBasePath(sch, cache, opts))
 		} else {
 			result(sch, spec.ExpandSchema(sch, root, nil))
 		}
@@ -1634,7 +1647,12 @@ func exElementCases(g *exGraph) []exElementCase {
 	return out
 }
 
-var exEntries = []string{"with_root_typed", "with_root_generic", "base_path"}
+var exEntries = []string{"with_root_typed", "with_root_generic", "base_path", "cache_prefilled"}
+
+// exEntryApplies: the pre-filled cache is an entry point of the schema expander only
+func exEntryApplies(op, entry string) bool {
+	return entry != "cache_prefilled" || op == "expand_schema"
+}
 
 // exUnionsGraph: one document whose schemas hold `items`, `additionalProperties` and `additionalItems` in each of their forms.
 func exUnionsGraph() *exGraph {
@@ -1756,6 +1774,9 @@ func genExpandCases(r *rng, n int, tier string, cw *caseWriter) {
 		}
 		for _, ec := range els {
 			entry := rf.pick(exEntries)
+			if !exEntryApplies(ec.Op, entry) {
+				entry = "with_root_generic"
+			}
 			o := exOpts{}
 			if ec.Op == "expand_schema" && entry == "base_path" {
 				o = exOpts{Skip: rf.chance(1, 5), Cont: rf.chance(1, 4), Abs: rf.chance(1, 2)}
@@ -1764,8 +1785,8 @@ func genExpandCases(r *rng, n int, tier string, cw *caseWriter) {
 			c.Element, c.Entry = ec.Element, entry
 			res := exRun(c)
 			view, depth := exGoView(g, c, res, true)
-			emit(orderedMap{{"op", ec.Op}, {"nt", true}, {"docs", g.Docs}, {"root", g.Root}, {"element", ec.Element}, {"entry", entry}, {"opts", o},
-				{"missing", append([]string{}, g.Missing...)}, {"form", ec.Form}, {"pseudo_root", exPseudoRoot}, {"unf_depth", depth}, {"go", view}})
+			emit(orderedMap{{"op", ec.Op}, {"nt", true}, {"tags", g.Tags}, {"docs", g.Docs}, {"root", g.Root}, {"element", ec.Element}, {"entry", entry}, {"opts", o},
+				{"missing", append([]string{}, g.Missing...)}, {"acyclic", g.Acyclic}, {"form", ec.Form}, {"pseudo_root", exPseudoRoot}, {"unf_depth", depth}, {"go", view}})
 		}
 	}
 }
